@@ -25,7 +25,7 @@ func zzIsClosed(err error) bool {
 // call; a stream-limit error does not reconnect; after Close nothing is open
 // and every call fails without touching the configuration.
 //
-//verif:harness kind=api replay=interp unwind=64 preempt=0 bound=calls<=4(quick)/5(thorough),lazy/eager
+//verif:harness kind=api replay=interp unwind=64 preempt=0 bound=calls<=4(quick)/5(thorough),lazy/eager,5-faults
 func ZZ_C16_ReconnectCensus() {
 	zzServer.header = http.Header{"Hysteria-Udp": []string{"false"}}
 	zzServer.status = 233
@@ -58,8 +58,12 @@ func ZZ_C16_ReconnectCensus() {
 		nconn := len(zzConnList)
 		switch verifChoice("call", 2) {
 		case 0: // TCP
-			fault := verifChoice("fault", 4) // 0 none, 1 permanent error, 2 stream limit, 3 config fails (if reconnecting)
+			fault := verifChoice("fault", 5) // 0 none, 1 permanent error, 2 stream limit, 3 config fails, 4 server refuses the credentials (3, 4: if reconnecting)
 			configFails = fault == 3
+			zzServer.status = 233
+			if fault == 4 {
+				zzServer.status = 404
+			}
 			// the fault hits the connection that serves this call: the current one, or the one about to be built
 			if !expectReconnect && nconn > 0 {
 				st := zzConn(zzConnList[nconn-1])
@@ -82,6 +86,12 @@ func ZZ_C16_ReconnectCensus() {
 					verifCover("config-fails")
 					verifAssert(err != nil && c == nil, "a failing reconnect attempt fails the call")
 					break // still no connection: the next call tries again
+				}
+				if fault == 4 {
+					verifCover("auth-refused")
+					verifAssert(err != nil && c == nil, "a reconnect attempt the server refuses fails the call")
+					verifAssert(f.open() == 0, "and leaves no socket behind: the refused attempt's socket is closed")
+					break
 				}
 				verifAssert(err == nil && len(zzConnList) == nconn+1, "and the call goes through on the new connection")
 				expectReconnect = false
